@@ -1,6 +1,7 @@
 import Driver.Proto
 import BedVerif.Model.Lapper
 import BedVerif.Lemmas.FastCover
+import BedVerif.Lemmas.FastCount
 /-!
 Near-linear-time judging of LARGE Lapper cases (C16–C20): histories with more than `threshold`
 intervals. The executable model (`Lapper.run`) and the position-enumerating specs are quadratic or
@@ -287,11 +288,14 @@ def c19? (force : Bool) (inp obs : List String) : Option Verdict :=
     | some (some o, _) =>
       let g (k : Nat) : Nat := o.getD k 0
       -- merges and set_cov do not change which positions are covered
-      let ca := canonCover (seOf ha.supplied)
-      let cb := canonCover (seOf hb.supplied)
-      let la := covLen ca
-      let lb := covLen cb
-      let i := interLen ca cb
+      -- cardinalities through the PROVED fast forms: `fastCov = coveredCount`, `fastInter = interCount`
+      -- (Lemmas/FastCount.lean: cover lengths and inclusion–exclusion over `fastCover`)
+      let toIvs (x : Array SE) : List (Iv Unit) := x.toList.map (fun (y : SE) => (⟨y.1, y.2, ()⟩ : Iv Unit))
+      let ia := toIvs (seOf ha.supplied)
+      let ib := toIvs (seOf hb.supplied)
+      let la := fastCov ia
+      let lb := fastCov ib
+      let i := fastInter ia ib
       let u := la + lb - i
       if g 0 != la then some (vFail s!"cov(a) = {g 0}, covered positions = {la}")
       else if g 1 != lb then some (vFail s!"cov(b) = {g 1}, covered positions = {lb}")
